@@ -70,6 +70,12 @@ pub trait Hooks: Send + Sync + 'static {
     false
   }
 
+  /// Simulation knob: activation height of inscriptions, so that short
+  /// simulated chains reach the "index does not start at genesis" paths.
+  fn first_inscription_height(&self) -> Option<u32> {
+    None
+  }
+
   /// Replacement for process randomness used when building transactions.
   fn entropy(&self) -> Option<[u8; 32]> {
     None
@@ -143,6 +149,10 @@ pub(crate) fn router(router: &axum::Router) -> bool {
 
 pub(crate) fn skip_index_thread() -> bool {
   hooks().is_some_and(|hooks| hooks.skip_index_thread())
+}
+
+pub(crate) fn first_inscription_height() -> Option<u32> {
+  hooks()?.first_inscription_height()
 }
 
 pub(crate) fn entropy() -> Option<[u8; 32]> {
